@@ -13,7 +13,7 @@ THEOREMS = [
     "Astm.C18.placeholders_land_in_schema_fields", "Astm.C18.converted_line_delivers_once_and_closes",
     "Astm.C18.adapter_glue", "Astm.C18.vendor_lines_start_with_stx", "Astm.C18.ordinary_frames_not_taken_over",
     "Astm.C18.example_conversion",
-    "Astm.C18.anchored_code_keeps_no_other_state", "Astm.C18.anchored_code_keeps_its_signatures",
+    "Astm.C18.vendor_schemas_eq_contract", "Astm.C18.anchored_code_keeps_no_other_state", "Astm.C18.anchored_code_keeps_its_signatures",
 ]
 RULE = ("lines generated from the vendor grammars: miniVidas = leading mt tag followed by any subset of the 19 optional tags "
         "in their fixed order with ids / names / values over printable ASCII and UTF-8 text (no field delimiter), any valid "
@@ -79,7 +79,7 @@ def spot_line(r):
     d = r.randrange(1, 29)
     date = "%02d/%02d/%02d" % (y, m, d)
     time = "%02d:%02d" % (r.randrange(24), r.randrange(60))
-    sid = "".join(r.choice("ABCXYZ0189-_") for _ in range(r.randrange(1, 10)))
+    sid = "".join(r.choice("ABCXYZ0189-_") for _ in range(r.choice([1, 2, 5, 9, 9, 13, 14, 24, 40])))
     stype = r.choice(["Serum", "Plasma", "Whole Blood", "U", "", "x", "Plasma {EDTA}", "{0}", "Urine }", "{CR}", "{", "%s", "{{x}}"])
     def num():
         return r.choice(["140", "140.5", "4.10", "0.5", "101", "7.", "003.20", "12345.678", "0", "0.0"])
